@@ -6,7 +6,7 @@ ROOT = os.path.join(os.path.dirname(os.path.dirname(os.path.abspath(__file__))),
 res = {}
 if os.path.exists(os.path.join(ROOT, "last_sweep.txt")):
     for l in open(os.path.join(ROOT, "last_sweep.txt")):
-        m = re.match(r'^(C\d\d[a-f]) (C\d\d) rc=(\d+)\s*(.*)$', l.strip())
+        m = re.match(r'^(C\d\d[a-z]) (C\d\d) rc=(\d+)\s*(.*)$', l.strip())
         if m:
             res[m.group(1)] = {"check": m.group(2), "rc": int(m.group(3)), "lines": m.group(4)}
 props = {json.loads(l)["id"]: json.loads(l) for l in open(os.path.join(os.path.dirname(ROOT), "properties.jsonl"))}
